@@ -110,7 +110,9 @@ pub fn run(ctx: &mut Ctx) {
                         });
                     }
                     if let Some(p) = prev {
-                        if !(p < iv && iv > p && p != iv) {
+                        #[allow(clippy::eq_op)]
+                        let refl = iv >= iv && iv <= iv && !(iv > iv) && !(iv < iv) && iv >= p && p <= iv && !(p >= iv);
+                        if !(refl && p < iv && iv > p && p != iv) {
                             acc.fail("C13:IntervalYM:ordering-not-numeric", idx, || (format!("IntervalYM({}) vs IntervalYM({m})", m - 1), "increasing".into(), format!("{:?}", p.cmp(&iv)), String::new()));
                         }
                     }
@@ -139,6 +141,8 @@ pub fn run(ctx: &mut Ctx) {
     let mut p = 1i64;
     while p <= 1_000_000_000_000_000_000 { for d in -1..=1 { set.push(p + d); set.push(-(p + d)); } if p == 1_000_000_000_000_000_000 { break; } p *= 10; }
     for e in 0..=62u32 { for d in -3..=3i64 { set.push((1i64 << e) + d); set.push(-((1i64 << e) + d)); } }
+    for e in 0..=36u32 { for d in -1..=1i64 { let k = (1i64 << e) + d; if let Some(x) = k.checked_mul(US_SEC) { set.push(x); set.push(-x); set.push(x + 1); } } }
+    for k in [3i64 << 30, 5 << 29, (1 << 31) + 12_345, (1i64 << 32) - 1] { set.push(k * US_SEC); set.push(-k * US_SEC); }
     for unit in [US_SEC, US_MIN, US_HOUR, US_DAY] {
         for k in [1i64, 2, 23, 24, 59, 60, 61, 99, 100, 365, 366, 1000, 99_999_999, 100_000_000] {
             if let Some(x) = unit.checked_mul(k) { for d in -1..=1 { set.push(x + d); set.push(-(x + d)); } }
@@ -168,7 +172,9 @@ pub fn run(ctx: &mut Ctx) {
         acc.t(1);
         if let (Ok(x), Ok(y)) = (IntervalDT::try_from_usecs(a), IntervalDT::try_from_usecs(b)) {
             acc.cls("compared");
-            if !(x < y && y > x && x != y && x.cmp(&y) == std::cmp::Ordering::Less) {
+            #[allow(clippy::eq_op)]
+            let refl = x >= x && x <= x && !(x > x) && !(x < x) && x == x && x.partial_cmp(&x) == Some(std::cmp::Ordering::Equal) && y >= x && x <= y && !(x >= y) && !(y <= x);
+            if !(refl && x < y && y > x && x != y && x.cmp(&y) == std::cmp::Ordering::Less) {
                 acc.fail("C13:IntervalDT:ordering-not-numeric", idx, || (format!("IntervalDT({a}) vs IntervalDT({b})"), "Less".into(), format!("{:?}", x.cmp(&y)), String::new()));
             }
         } else { acc.cls("skipped_out_of_range"); }
